@@ -13,7 +13,6 @@ import (
 	"io"
 	"sort"
 	"strings"
-	"sync"
 	"time"
 
 	"github.com/charmbracelet/x/term"
@@ -192,9 +191,9 @@ func VerifProgramRenderer(p *Program) *VerifRenderer {
 	return nil
 }
 
-// consumeOnce makes the pending once already done, so that stop/kill do not
-// try to hand a token to a listen goroutine that was never started.
-func (v *VerifRenderer) consumeOnce() { v.r.once.Do(func() {}) }
+// consumeOnce: nothing to do any more (a renderer that was never started has no
+// listen goroutine, and stop/kill know it).
+func (v *VerifRenderer) consumeOnce() {}
 
 func (v *VerifRenderer) Write(s string)         { v.r.write(s) }
 func (v *VerifRenderer) Flush()                 { v.r.flush() }
@@ -228,7 +227,7 @@ func (v *VerifRenderer) Stop() { v.consumeOnce(); v.r.stop() }
 func (v *VerifRenderer) Kill() { v.consumeOnce(); v.r.kill() }
 
 // Rearm does the part of start() that does not create goroutines or tickers.
-func (v *VerifRenderer) Rearm() { v.r.once = sync.Once{} }
+func (v *VerifRenderer) Rearm() {}
 
 // VerifRendererState is a snapshot of the renderer's bookkeeping.
 type VerifRendererState struct {
